@@ -209,6 +209,125 @@ Resolved = Union[FunctionInfo, ClassInfo, Module, Ext, Tuple[str, Module, str], 
 # ----------------------------------------------------------------------------- program
 
 
+def _unalias_module_imports(parsed) -> None:
+    """`from .. import util as _util` + `_util.to_bytes(x)` is `from ..util import to_bytes` + `to_bytes(x)`: a module of the package that is imported
+    as an object and only ever used through attribute reads is replaced by direct imports of the names read (the rules and the call graph speak
+    about functions, not about the spelling of the import).  Left alone when the alias is re-bound, passed around, or a read name is already bound
+    to something else in the importing module."""
+    mods = {n for n, _p, _s, _t, _k in parsed}
+    for name, _path, _src, tree, is_pkg in parsed:
+        pkg_parts = name.split(".") if is_pkg else name.split(".")[:-1]
+        bound = set()
+        for x in ast.walk(tree):
+            if isinstance(x, ast.Name) and isinstance(x.ctx, (ast.Store, ast.Del)):
+                bound.add(x.id)
+            elif isinstance(x, (ast.FunctionDef, ast.AsyncFunctionDef, ast.ClassDef)):
+                bound.add(x.name)
+            elif isinstance(x, ast.arg):
+                bound.add(x.arg)
+        imported = {}
+        for st in tree.body:
+            if isinstance(st, ast.ImportFrom):
+                for a in st.names:
+                    imported[a.asname or a.name] = (st, a)
+        for st in list(tree.body):
+            if not isinstance(st, ast.ImportFrom) or st.level == 0:
+                continue
+            base = pkg_parts[: len(pkg_parts) - (st.level - 1)] if st.level - 1 <= len(pkg_parts) else None
+            if base is None:
+                continue
+            if st.module:
+                base = base + st.module.split(".")
+            for a in list(st.names):
+                full = ".".join(base + [a.name])
+                alias = a.asname or a.name
+                if full not in mods or alias in bound:
+                    continue
+                uses = [x for x in ast.walk(tree) if isinstance(x, ast.Name) and x.id == alias]
+                attrs = [x for x in ast.walk(tree) if isinstance(x, ast.Attribute) and isinstance(x.value, ast.Name) and x.value.id == alias and isinstance(x.ctx, ast.Load)]
+                if not uses or len(uses) != len(attrs):
+                    continue  # the module object itself is used somewhere
+                names = sorted({x.attr for x in attrs})
+                if any((n_ in bound) or (n_ in imported and not _same_import(imported[n_], base + [a.name], n_, pkg_parts)) for n_ in names):
+                    continue
+
+                class R(ast.NodeTransformer):
+                    def visit_Attribute(self, n: ast.Attribute):
+                        self.generic_visit(n)
+                        if isinstance(n.value, ast.Name) and n.value.id == alias and isinstance(n.ctx, ast.Load):
+                            return ast.copy_location(ast.Name(id=n.attr, ctx=ast.Load()), n)
+                        return n
+                R().visit(tree)
+                new_names = [n_ for n_ in names if n_ not in imported]
+                rel_mod = ".".join((st.module.split(".") if st.module else []) + [a.name])
+                if new_names:
+                    imp = ast.copy_location(ast.ImportFrom(module=rel_mod, names=[ast.alias(name=n_, asname=None) for n_ in new_names], level=st.level), st)
+                    tree.body.insert(tree.body.index(st), imp)
+                    for n_ in new_names:
+                        imported[n_] = (imp, imp.names[new_names.index(n_)])
+                st.names.remove(a)
+            if not st.names:
+                tree.body.remove(st)
+        ast.fix_missing_locations(tree)
+
+
+def _propagate_function_aliases(parsed) -> None:
+    """`encode = ECBinding._to_base64` ... `encode(x)`: a local that is bound once to a dotted name rooted at a module-level class / function / import
+    and is only ever called is the dotted name itself (a local alias of a function does not change which function runs)."""
+    for _name, _path, _src, tree, _k in parsed:
+        roots = set()
+        for st in tree.body:
+            if isinstance(st, (ast.FunctionDef, ast.AsyncFunctionDef, ast.ClassDef)):
+                roots.add(st.name)
+            elif isinstance(st, ast.ImportFrom):
+                roots.update(a.asname or a.name for a in st.names)
+            elif isinstance(st, ast.Import):
+                roots.update((a.asname or a.name).split(".")[0] for a in st.names)
+        roots -= {x.id for x in ast.walk(tree) if isinstance(x, ast.Name) and isinstance(x.ctx, (ast.Store, ast.Del))}
+        for fn in [x for x in ast.walk(tree) if isinstance(x, (ast.FunctionDef, ast.AsyncFunctionDef))]:
+            params = {a.arg for a in fn.args.args + fn.args.kwonlyargs + fn.args.posonlyargs}
+            stores = {}
+            for x in ast.walk(fn):
+                if isinstance(x, ast.Name) and isinstance(x.ctx, (ast.Store, ast.Del)):
+                    stores[x.id] = stores.get(x.id, 0) + 1
+            for blk_owner in ast.walk(fn):
+                for fld in ("body", "orelse", "finalbody"):
+                    body = getattr(blk_owner, fld, None)
+                    if not (isinstance(body, list) and body and isinstance(body[0], ast.stmt)):
+                        continue
+                    for st in list(body):
+                        if not (isinstance(st, ast.Assign) and len(st.targets) == 1 and isinstance(st.targets[0], ast.Name)):
+                            continue
+                        al = st.targets[0].id
+                        v = st.value
+                        chain = v
+                        while isinstance(chain, ast.Attribute):
+                            chain = chain.value
+                        if not (isinstance(v, (ast.Name, ast.Attribute)) and isinstance(chain, ast.Name) and chain.id in roots and chain.id not in params and chain.id not in stores):
+                            continue
+                        if stores.get(al) != 1 or al in params:
+                            continue
+                        uses = [x for x in ast.walk(fn) if isinstance(x, ast.Name) and x.id == al and isinstance(x.ctx, ast.Load)]
+                        calls = [x for x in ast.walk(fn) if isinstance(x, ast.Call) and isinstance(x.func, ast.Name) and x.func.id == al]
+                        if not uses or len(uses) != len(calls):
+                            continue
+                        import copy as _cp
+                        for c in calls:
+                            c.func = ast.copy_location(_cp.deepcopy(v), c.func)
+                        body.remove(st)
+                        if not body:
+                            body.append(ast.copy_location(ast.Pass(), st))
+        ast.fix_missing_locations(tree)
+
+
+def _same_import(entry, modparts, name, pkg_parts) -> bool:
+    st, a = entry
+    if a.name != name or a.asname not in (None, name) or st.level == 0:
+        return False
+    base = pkg_parts[: len(pkg_parts) - (st.level - 1)]
+    return base + (st.module.split(".") if st.module else []) == modparts
+
+
 class Program:
     def __init__(self, repo: str):
         self.repo = os.path.abspath(repo)
@@ -250,6 +369,8 @@ class Program:
             except SyntaxError as e:
                 raise AnalysisError(f"cannot parse {path}: {e}")
             parsed.append((name, path, src, tree, is_pkg))
+        _unalias_module_imports(parsed)
+        _propagate_function_aliases(parsed)
         # method names defined in more than one class anywhere in the package cannot be resolved through `self` by the inliner
         counts: Dict[str, int] = {}
         for _n, _p, _s, tree, _k in parsed:
